@@ -75,10 +75,13 @@ class TypeRegistry:
         def decorator(f):
             if not self.validator(f):
                 raise TypeError(f'Invalid register target: {f}, must pass <{self.validator}> validate')
-            self._registry.insert(0, (detector, f, priority))
-            self._registry.sort(key=lambda v: -v[2])
-            # a new registration may match types that were already resolved
-            self._cache.clear()
+            # copy-on-write: a resolve() running in another thread keeps iterating its own snapshot
+            registry = [(detector, f, priority)] + self._registry
+            registry.sort(key=lambda v: -v[2])
+            self._registry = registry
+            # a new registration may match types that were already resolved; a *new* dict (after the
+            # registry) so that a concurrent resolve() cannot store a stale result into the live cache
+            self._cache = {}
             return f
 
         # before runtime, type will be compiled and applied
@@ -92,13 +95,14 @@ class TypeRegistry:
         if self.shortcut and hasattr(t, self.shortcut) and self.validator(getattr(t, self.shortcut)):
             # this type already got a callable transformer, do not resolve then
             return getattr(t, self.shortcut)
-        if self.cache and t in self._cache:
-            return self._cache[t]
+        cache = self._cache      # read before the registry (see register)
+        if self.cache and t in cache:
+            return cache[t]
         for detector, trans, priority in self._registry:
             try:
                 if detector(t):
                     if self.cache:
-                        self._cache[t] = trans
+                        cache[t] = trans
                     return trans
             except (TypeError, ValueError):
                 continue
